@@ -188,6 +188,10 @@ theorem sendStored_eff {c : C} (h : Wf c) : Eff false c (sendStored c) := by
   refine Eff.quiet_right (c' := (sendStoredLoop (ssReset c) (ssReset c).s.store).1) ?_ ⟨rfl, rfl, rfl⟩
   exact Eff.via h (ssReset_q c) (fun h' => sendStoredLoop_eff _ _ h')
 
+theorem resendStored_eff {c : C} (h : Wf c) : Eff false c (resendStored c) :=
+  resendStored_ind (Q := fun x => Eff false c x) c (sendStored_eff h)
+    (fun e => e.quiet_right (sendPostProcess_q _))
+
 /-! ## projection forms: an `Eff` from what happened to `(cfg, pidMan, released ids)` -/
 
 theorem Eff.of_proj {b : Bool} {c c' : C} (h : Wf c) (h1 : c'.cfg = c.cfg)
@@ -369,6 +373,11 @@ theorem psSubUnsub_eff {c : C} (h : Wf c) (p : Pkt) : Eff false c (psSubUnsub c 
   simp only []
   (repeat' split) <;> eff_branch
 
+/-- fix 1d0ef05: a send refused for version or role releases the identifier obtained for it -/
+theorem refuseSend_eff {c : C} (h : Wf c) (e : Nat) (p : Pkt) : Eff false c (refuseSend c e p) := by
+  unfold refuseSend
+  split <;> eff_branch
+
 def processSendClears (c : C) (p : Pkt) : Bool :=
   if p.kind = .connect then (if p.ver = 4 then psV3ConnectClears c p else psV5ConnectClears c p)
   else if p.kind = .connack then (if p.ver = 4 then psV3ConnackClears c p else psV5ConnackClears c p)
@@ -399,12 +408,12 @@ theorem send_eff {c : C} (h : Wf c) (p : Pkt) : Eff (sendClears c p) c (send c p
   split
   · rename_i hv; simp only [ne_eq] at hv
     simp only [hv, decide_false, Bool.false_and]
-    exact Eff.of_quiet h (by quiet_tac)
+    exact refuseSend_eff h _ p
   rename_i hv; simp only [ne_eq, Decidable.not_not] at hv
   split
   · rename_i hr; simp only [Bool.not_eq_true'] at hr
     simp only [hr, Bool.and_false, Bool.false_and]
-    exact Eff.of_quiet h (by quiet_tac)
+    exact refuseSend_eff h _ p
   · rename_i hr; simp only [Bool.not_eq_true', Bool.not_eq_false] at hr
     simp only [hv, hr, decide_true, Bool.true_and]
     exact processSend_eff h p
